@@ -911,6 +911,11 @@ class STIXObjectProperty(Property):
 
         parsed_obj = parse(dictified, allow_custom=allow_custom, interoperability=interoperability)
 
+        if isinstance(parsed_obj, _STIXBase) and "id" not in parsed_obj:
+            # e.g. a STIX 2.0 cyber observable, which only exists inside
+            # observed-data
+            raise ValueError("This property may only contain objects which have an id")
+
         if isinstance(parsed_obj, _STIXBase):
             has_custom = parsed_obj.has_custom
         else:
